@@ -77,6 +77,21 @@ def _run(ctx, fn, how, snapshot=False):
 def d2_d3_range_and_direction(ctx):
     writers, _ = window_writers(ctx)
     ctx.chk.floor("D2", "window writer bodies analysed", len(writers), 9)
+    # "returns to 20000 whenever the link is torn down for recovery or reconnect": every entry point of a link reset (the callers of
+    # reset_core_state) leaves exactly the default on every path, whatever the window was
+    rc = ctx.w.fn(CONN + "::reset_core_state")
+    if rc is not None:
+        entry_points = sorted(set(c.stable for (c, bb, t) in ctx.eff.callers_of(rc.id) if "::tests" not in c.stable))
+        ctx.chk.floor("D2", "link reset entry points (callers of reset_core_state)", len(entry_points), 2)
+        for st in entry_points:
+            g = ctx.w.fn(st)
+            if g is None or not (g.argc >= 1 and "SrtlaConnection" in g.locals[1]["ty"]):
+                ctx.chk.ob("D2", "%s: a link reset entry point that can be analysed" % sname(st), False, "", key="D2:teardown-default:%s" % st)
+                continue
+            ai, cell = _run(ctx, g, ("self", 1))
+            ex = ai.exit_mem.get(cell)
+            ctx.chk.ob("D2", "%s: every path leaves the window at %d" % (sname(st), DEF), isinstance(ex, Num) and ex.lo == ex.hi == DEF, "entry [1000, 60000] -> exit %r" % (ex,),
+                       key="D2:teardown-default:%s" % st, loc=g.loc)
     for (fn, how) in writers:
         ai, cell = _run(ctx, fn, how)
         ex = ai.exit_mem.get(cell)
